@@ -404,6 +404,10 @@ func c10GenResp(p picker, label string, kind string, timeout time.Duration, faul
 		default:
 			r.Status = p.pick(label+".redir", 301, 302, 307)
 			r.Location = "http://203.0.113.77:9200/"
+			if r.Status == 302 {
+				// a host whose address extends the probed address textually (no extra draw)
+				r.Location = "http://" + c10Target + "0:9200/elastic/"
+			}
 		}
 	}
 	return r
